@@ -244,6 +244,7 @@ func genNames(r *vhlib.Rng, n int) []nameCase {
 		add(ups(k)+"sent", "defect", fmt.Sprintf("up%d", k))
 		add(ups(k)+"victim", "defect", fmt.Sprintf("up%d", k))
 	}
+	add("..", "defect", "up1_bare")
 	add("../../../escaped_by_lookup", "defect", "up3")
 	add("sub/../../../sent.csv", "defect", "up2_after_down")
 	add("a/b/../../../../sent", "defect", "up2_after_down")
@@ -485,6 +486,9 @@ func (h *H) lookupSites(nc nameCase, i int) {
 	if res.Status == 200 && len(touched) == 1 {
 		h.obs(fmt.Sprintf("LookupUpload %s %s", vhlib.CoqStr(name), vhlib.CoqBool(gz)), touched[0])
 	}
+	if res.Status != -1 {
+		safeObs(name, !(res.Status == 400 && (strings.Contains(res.Body, "Invalid file name") || strings.Contains(res.Body, "File name is required"))))
+	}
 	h.writeInside() // an upload may have overwritten one of the inside markers
 	// get / delete through the router (raw path element) and at handler level
 	for _, direct := range []bool{false, true} {
@@ -532,6 +536,13 @@ func (h *H) lookupSites(nc nameCase, i int) {
 }
 
 var inputGuard []string
+
+// (name, accepted by the site's IsSafePathComponent check) for sites where a refusal is visible
+var safeGuard []string
+
+func safeObs(name string, accepted bool) {
+	safeGuard = append(safeGuard, fmt.Sprintf("(%s, %s)", vhlib.CoqStr(name), vhlib.CoqBool(accepted)))
+}
 
 func (h *H) inputlookupSite(nc nameCase) {
 	name := nc.Name
@@ -586,7 +597,7 @@ func (h *H) inputlookupSite(nc nameCase) {
 		if res.Status == 200 && len(res.Read) == 1 {
 			h.obs("InputLookup "+vhlib.CoqStr(fname), res.Read[0])
 		}
-		if strings.Contains(errStr, "Only .csv and .csv.gz") {
+		if strings.Contains(errStr, "Only .csv and .csv.gz") || strings.Contains(errStr, "invalid lookup file name") {
 			inputGuard = append(inputGuard, fmt.Sprintf("(%s, false)", vhlib.CoqStr(fname)))
 		} else if strings.Contains(errStr, "Error while opening file") || (res.Status == 200 && len(res.Read) == 1) {
 			inputGuard = append(inputGuard, fmt.Sprintf("(%s, true)", vhlib.CoqStr(fname)))
@@ -789,6 +800,9 @@ func (h *H) indexSites(nc nameCase, i int) {
 		}
 		return 200, strconv.Itoa(n)
 	})
+	if res.Status != -1 {
+		safeObs(eff, res.Status == 200)
+	}
 	for _, p := range pickSuffix(res.Diff.created, ".suffix") {
 		sid = strings.TrimSuffix(filepath.Base(p), ".suffix")
 		h.obs(fmt.Sprintf("SuffixFile %s %s", vhlib.CoqStr(eff), vhlib.CoqStr(sid)), p)
@@ -847,6 +861,11 @@ func (h *H) indexSites(nc nameCase, i int) {
 		eswriter.ProcessPostAliasesRequest(ctx, 0)
 		return resp(ctx)
 	})
+	if res.Status != -1 {
+		// the handler answers 200 "acknowledged" even when AddAliases refused (its 400 is
+		// overwritten); acceptance = the alias file was written
+		safeObs(ja, len(pickSuffix(cat(res.Diff.created, res.Diff.modified), ".json")) > 0)
+	}
 	for _, p := range pickSuffix(cat(res.Diff.created, res.Diff.modified), ".json") {
 		h.obs(fmt.Sprintf("Alias [] %s", vhlib.CoqStr(ja)), p)
 	}
@@ -904,6 +923,44 @@ func (h *H) metricsNameSite(nc nameCase, i int) {
 	}
 }
 
+// alias NAMES are file names too: FlushAliasMapToFile (shutdown) writes <aliases dir>/<alias>.json.
+// Like the tag keys, earlier aliases are flushed again, so the non-climbing names go first.
+func (h *H) aliasNameSite(nc nameCase) {
+	name := nc.Name
+	if name == "" || len(name) > 200 {
+		return
+	}
+	ja := viaJSON(name)
+	if !aliasPhase {
+		// everything added so far is flushed once, so that it is not attributed to a later name
+		aliasPhase = true
+		_ = vtable.FlushAliasMapToFile()
+		for p := range h.snap() {
+			aliasSeen[p] = true
+		}
+		h.last = nil
+	}
+	was, _ := vtable.IsAlias(ja, 0)
+	res := h.op("alias_name_flush", nc, false, func() (int, string) {
+		ctx := newCtx("POST", "", []byte(`{"actions":[{"add":{"index":"normal","alias":`+jsonStr(name)+`}}]}`))
+		eswriter.ProcessPostAliasesRequest(ctx, 0)
+		_ = vtable.FlushAliasMapToFile()
+		return resp(ctx)
+	})
+	if now, _ := vtable.IsAlias(ja, 0); res.Status != -1 && !was {
+		safeObs(ja, now) // accepted = the alias is now known to the server
+	}
+	for _, p := range pickSuffix(cat(res.Diff.created, res.Diff.modified), ".json") {
+		if !aliasSeen[p] && filepath.Base(p) != "normal.json" {
+			h.obs(fmt.Sprintf("Alias [] %s", vhlib.CoqStr(ja)), p)
+		}
+		aliasSeen[p] = true
+	}
+}
+
+var aliasSeen = map[string]bool{}
+var aliasPhase bool
+
 var tagMid, tagSuf string
 var tagSeen = map[string]bool{}
 
@@ -932,6 +989,7 @@ func (h *H) metricsTagKeySite(nc nameCase, i int) {
 	if len(fresh) != 1 {
 		return
 	}
+	safeObs(key, true) // a file was written for this key: the flush's validator accepted it
 	if tagMid == "" && strings.HasPrefix(fresh[0], tpre) && !strings.Contains(key, "/") && key != ".." {
 		parts := strings.Split(strings.TrimPrefix(fresh[0], tpre), "/")
 		if len(parts) == 3 {
@@ -1035,6 +1093,10 @@ func (h *H) writeSiteCases() {
 			"Definition cases : list (call * (list N * bool)) := " + vhlib.CoqListNL(h.sites[s:e]) + ".\n"
 		h.sum.WriteCaseFile(h.cfg.Out, fmt.Sprintf("cases_sites_%d", i), "From SigM Require Import Base Paths PathsCheck.\n", defs, "check_sites D H cases", e-s)
 	}
+	if len(safeGuard) > 0 {
+		defs := "Definition cases : list (list N * bool) := " + vhlib.CoqListNL(safeGuard) + ".\n"
+		h.sum.WriteCaseFile(h.cfg.Out, "cases_safe_component", "From SigM Require Import Base Paths PathsCheck.\n", defs, "check_safe cases", len(safeGuard))
+	}
 	if len(inputGuard) > 0 {
 		defs := "Definition cases : list (list N * bool) := " + vhlib.CoqListNL(inputGuard) + ".\n"
 		h.sum.WriteCaseFile(h.cfg.Out, "cases_inputlookup_guard", "From SigM Require Import Base Paths PathsCheck.\n", defs, "check_inputlookup_guard cases", len(inputGuard))
@@ -1133,6 +1195,13 @@ func main() {
 		for i, nc := range names {
 			if nc.Stream == stream {
 				timed("metrics", func() { h.metricsTagKeySite(nc, i) })
+			}
+		}
+	}
+	for _, stream := range []string{"main", "defect"} {
+		for _, nc := range names {
+			if nc.Stream == stream {
+				timed("aliasname", func() { h.aliasNameSite(nc) })
 			}
 		}
 	}
